@@ -266,10 +266,13 @@ template<class T> static void chk_rgb_hsv_rgb(const C3<T>& in,vf::Ctx& c){
 	HSVref rf=ref_hsv(in.c[0],in.c[1],in.c[2]);
 	std::string sec= rf.grey? "grey":"sector"+std::to_string(rf.sector); c.cls(sec.c_str());
 	LD rel=rf.v*(8+48*rf.s)*u, bound=rel+eps;
+	// "regular": no two channels closer than 4 eps without being equal, and not darker than 4 eps: none of glm's absolute-epsilon tests can misfire
+	bool regular= rf.mx>4*eps; for(int i=0;i<3;i++){ LD d=absl_((LD)in.c[i]-(LD)in.c[(i+1)%3]); if(d!=0&&d<=4*eps) regular=false; }
 	for(int i=0;i<3;i++){
 		if(isnan_b(rgb[i])){ c.fail(sec+":roundtrip-is-NaN",gv(std::string("rgb.")+"rgb"[i],rgb[i]),vf::show(in.c[i])); continue; }
-		LD err=absl_((LD)rgb[i]-(LD)in.c[i]); c.ratio("roundtrip:err/bound",(double)(err/bound));
-		if(rel>0) c.ratio("roundtrip:err/relative-part-only(record-only;>1=absolute-epsilon-shortcut)",(double)(err/rel));
+		LD err=absl_((LD)rgb[i]-(LD)in.c[i]); c.ratio("rt:err/bound",(double)(err/bound));
+		if(regular) c.ratio("rt:err/rel-bound(regular)",(double)(err/rel));      // away from glm's absolute-epsilon shortcuts: rounding part alone
+		else if(rel>0) c.ratio("rt:err/rel-bound(within-abs-eps;record-only)",(double)(err/rel));
 		if(!(rgb[i]>=T(0)&&rgb[i]<=T(1))) c.fail(sec+":rgb-outside[0,1]",gv(std::string("rgb.")+"rgb"[i],rgb[i]),"in [0,1]");
 		if(err>bound) c.fail(sec+":roundtrip-wrong",gv(std::string("rgb.")+"rgb"[i],rgb[i]),vf::show(in.c[i]));
 	}
@@ -499,7 +502,8 @@ template<class T,class OPS> static void gtx_workload(const char* tn,OPS& o){
 			switch(r.below(10)){
 			case 0: case 1: case 2: case 3: for(int k=0;k<3;k++) in.c[k]=(T)r.unit(); break;
 			case 4: { T sc=(T)std::ldexp(1.0,-r.range(1,40)); for(int k=0;k<3;k++) in.c[k]=(T)r.unit()*sc; } break;
-			case 5: { T base=(T)r.unit(); for(int k=0;k<3;k++) in.c[k]=clamp01<T>(nextf<T>(base,r.range(-6,6))); } break;
+			case 5: { T base=(T)r.unit(); if(r.coin()){ for(int k=0;k<3;k++) in.c[k]=clamp01<T>(nextf<T>(base,r.range(-6,6))); }      // near-grey: ulp-level ...
+				else { T w=(T)std::ldexp(1.0,-r.range(6,24)); for(int k=0;k<3;k++) in.c[k]=clamp01<T>(base+(T)r.uniform(-1,1)*w); } } break;   // ... and small saturations
 			case 6: { T g=rnd_comp<T>(r); in.c[0]=in.c[1]=in.c[2]=g; } break;
 			case 7: { T a=(T)r.unit(), b=(T)r.unit(); int k=(int)r.below(3); in.c[k]=a; in.c[(k+1)%3]=a; in.c[(k+2)%3]=b; } break;
 			case 8: for(int k=0;k<3;k++) in.c[k]= r.coin()? T(1):(r.coin()? T(0):(T)r.unit()); break;
